@@ -55,6 +55,9 @@ var c20Faults = map[string]string{
 	"index": "x = xs[x-x+7]", "div": "x = x / (x - x)", "panic": "panic(\"boom\")", "nilfield": "x = p.A",
 	"slice": "xs = xs[1:9]", "nilfunc": "x = nf(1)", "strindex": "x = int(s[x-x+5])", "mod": "x = x % (x - x)",
 	"nilmap": "mp[\"a\"] = 1", "nilfieldset": "p.A = 3", "nilmethod": "x = p.mz(1)", "negindex": "x = xs[x-x-1]",
+	// compound assignments (every operator the tokenizer reads, also the three-character ones)
+	"negshl": "x <<= x - x - 1", "negshr": "x >>= x - x - 1", "idxshr": "xs[x-x+7] >>= 1", "idxshl": "xs[x-x+7] <<= 1", "divassign": "x /= x - x",
+	"modassign": "x %= x - x", "idxadd": "xs[x-x+7] += 1", "idxinc": "xs[x-x+7]++", "nilfieldshl": "p.A <<= 1", "nilmapor": "mp[\"a\"] |= 1", "idxandnot": "xs[x-x+7] &= 3",
 }
 
 // the same faults with the failing operator on the first line and its last operand on the second
@@ -428,7 +431,7 @@ func c20Show(fr []c20Frame) string {
 }
 
 func runC20(c *Ctx) error {
-	c.Rep.Rule = "backtrace: programs built from a random call tree of depth 1..7 (up to ~25 functions and methods emitted in random order, completed calls before the fault, recursion of depth 1..30), faults with the operator and its last operand on different lines, calls as statement / in an expression / in if, else, for, range and switch bodies / through a function value / as an argument of another call / with arguments over several lines, one fault among 12 kinds (index, negative index, slice bounds, string index, integer division and modulo by zero, explicit panic, nil struct field read and write, nil method receiver, nil function value, nil map write) planted at a known line, 5% without fault; recursions of depth 1..30 whose failing operation is the recursive call itself (nil function value, nil receiver at the end of a list); each run with the optimizer off and on; distinct = distinct program; non-trivial = chain of at least 3 frames"
+	c.Rep.Rule = "backtrace: programs built from a random call tree of depth 1..7 (up to ~25 functions and methods emitted in random order, completed calls before the fault, recursion of depth 1..30), faults with the operator and its last operand on different lines, calls as statement / in an expression / in if, else, for, range and switch bodies / through a function value / as an argument of another call / with arguments over several lines, one fault among 23 kinds (compound assignments with every operator incl. <<= and >>=, index, negative index, slice bounds, string index, integer division and modulo by zero, explicit panic, nil struct field read and write, nil method receiver, nil function value, nil map write) planted at a known line, 5% without fault; recursions of depth 1..30 whose failing operation is the recursive call itself (nil function value, nil receiver at the end of a list); each run with the optimizer off and on; distinct = distinct program; non-trivial = chain of at least 3 frames"
 	n := 120
 	if c.Thorough() {
 		n = 60000
